@@ -1,7 +1,11 @@
 (** C06 - Exhausting RandomGen yields exactly the valid set; reported count is exact.
 
-    [count_exact]: for designs that need no rejection step the number of valid
-    sequences is [possible_keys] = preamble_solution_count *
+    [accepted_exact]: the valid sequences are exactly the candidates of the
+    ACCEPTED keys, one key each (with rejection: constraints by
+    [__are_constraints_violated]).
+    [count_exact]: for designs that need no rejection step ([Frag.rejection_free]:
+    only Cross / Consistency / MinimumTrials / Exclude) every key is accepted and
+    the number of valid sequences is [possible_keys] = preamble_solution_count *
     solution_count ^ rounds_per_run * leftover_solution_count.  NOTE: the
     property text asks that [metrics['solution_count']] equal the number of
     valid sequences; the code reports [solution_count] (the PER-ROUND count),
@@ -9,6 +13,10 @@
     full round with no leftover and no preamble (finding
     `random:solution-count:per-round`, reproduced by the C06 harness).  The
     theorem is about the product the sampler itself uses as [possible_keys].
+    [keys_count]: the keys RandomGen can draw ([all_keys] of the model) are
+    pairwise distinct and there are exactly [possible_keys] of them - the
+    condition under which the sampling loop stops ([len(used_keys) ==
+    possible_keys]), which c06.py decides at run time on the real enumerator.
 
     [loop_exhausts]: the [used_keys] / [possible_keys] loop of
     [RandomGen.__sample] over an ARBITRARY finite list of draws (Random/Loop.v):
@@ -21,20 +29,48 @@
     [exhaust]: both together on the fragment: asking for at least as many
     sequences as there are keys returns every valid sequence exactly once.
 
-    Full statement of [count_exact] / [exhaust]: every design with no rejection
-    step; proved for [Frag.frag0] (see Properties/C04.v) - hence [_partial].
-    [C06_loop_exhausts] is unconditional (any key type, any acceptance test). *)
+    Full statements: every design RandomGen accepts; proved for [Frag.frag1]
+    (see Properties/C04.v; it contains the earlier [Frag.frag0]) - hence
+    [_partial].  [keys_count] for every design the model accepts is NOT proved
+    (it needs the length / range facts of both unrankers for arbitrary weights
+    and memo tables).  [C06_loop_exhausts] is unconditional (any key type, any
+    acceptance test). *)
 From Coq Require Import ZArith List Bool.
 From SP Require Import Design.Flat Design.Sem Random.Enum Random.Frag Random.FragSem Random.Loop
-  Random.Frag0Enum Random.Frag0Thms Random.Frag0Loop Random.Frag0Example.
+  Random.Frag0Enum Random.Frag1Thms Random.Frag0Thms Random.Frag0Loop Random.Frag0Example.
 
-Theorem C06_count_exact_partial : forall (fb : flat), frag0 fb = true -> fl_errors_fail fb = false ->
+Theorem C06_accepted_exact_partial : forall (fb : flat), frag1 fb = true -> fl_errors_fail fb = false ->
+  NoDup (map (cand_tseq fb) (accepted_keys fb)) /\
+  (forall s, In s (map (cand_tseq fb) (accepted_keys fb)) <-> valid_b (code_sem fb) s = true).
+Proof. exact f1_accepted_exact. Qed.
+Print Assumptions C06_accepted_exact_partial.
+
+Theorem C06_count_exact_partial : forall (fb : flat), frag1 fb = true ->
+  fl_errors_fail fb = false -> rejection_free fb = true ->
+  make_enumerator fb = ROk (f0_enum fb) /\
+  NoDup (map (cand_tseq fb) (keys_of fb)) /\
+  (forall s, In s (map (cand_tseq fb) (keys_of fb)) <-> valid_b (code_sem fb) s = true) /\
+  Z.of_nat (length (map (cand_tseq fb) (keys_of fb))) = possible_keys fb (f0_enum fb).
+Proof. exact f1_count_exact. Qed.
+Print Assumptions C06_count_exact_partial.
+
+(** the earlier statement (fragment frag0, where nothing is ever rejected) is an instance *)
+Theorem C06_count_exact_frag0 : forall (fb : flat), frag0 fb = true -> fl_errors_fail fb = false ->
   make_enumerator fb = ROk (f0_enum fb) /\
   NoDup (map (cand_tseq fb) (keys_of fb)) /\
   (forall s, In s (map (cand_tseq fb) (keys_of fb)) <-> valid_b (code_sem fb) s = true) /\
   Z.of_nat (length (map (cand_tseq fb) (keys_of fb))) = possible_keys fb (f0_enum fb).
 Proof. exact f0_count_exact. Qed.
-Print Assumptions C06_count_exact_partial.
+Print Assumptions C06_count_exact_frag0.
+
+Theorem C06_keys_count_partial : forall (fb : flat), frag1 fb = true -> fl_errors_fail fb = false ->
+  make_enumerator fb = ROk (f0_enum fb) /\ Z.of_nat (length (keys_of fb)) = possible_keys fb (f0_enum fb).
+Proof. exact f1_keys_count. Qed.
+Print Assumptions C06_keys_count_partial.
+
+Theorem C06_keys_distinct_partial : forall (fb : flat), frag1 fb = true -> NoDup (keys_of fb).
+Proof. exact f1_keys_nodup. Qed.
+Print Assumptions C06_keys_distinct_partial.
 
 Theorem C06_loop_exhausts : forall (K : Type) (eqb : K -> K -> bool),
   (forall a b, eqb a b = true <-> a = b) ->
@@ -50,14 +86,14 @@ Theorem C06_loop_exhausts : forall (K : Type) (eqb : K -> K -> bool),
 Proof. exact loop_exhausts. Qed.
 Print Assumptions C06_loop_exhausts.
 
-Theorem C06_exhaust_partial : forall (fb : flat), frag0 fb = true -> fl_errors_fail fb = false ->
+Theorem C06_exhaust_partial : forall (fb : flat), frag1 fb = true -> fl_errors_fail fb = false ->
   forall (requested : nat) (draws res : list key),
   (forall k, In k draws -> In k (keys_of fb)) ->
   sample_loop key key_eqb (key_accepted fb) (length (keys_of fb)) requested draws nil nil = Some res ->
   length (keys_of fb) <= requested ->
   NoDup (map (cand_tseq fb) res) /\
   (forall s, In s (map (cand_tseq fb) res) <-> valid_b (code_sem fb) s = true).
-Proof. exact f0_loop_exhausts. Qed.
+Proof. exact f1_loop_exhausts. Qed.
 Print Assumptions C06_exhaust_partial.
 
 (** non-trivial instances: the example design has 18 per round x 6 leftover = 108
@@ -73,3 +109,11 @@ Example C06_loop_example :
   sample_loop nat Nat.eqb (fun k => negb (Nat.eqb k 2)) 3 5 (cons 1 (cons 1 (cons 2 (cons 0 nil)))) nil nil
   = Some (cons 1 (cons 0 nil)).
 Proof. reflexivity. Qed.
+Example C06_example_rejection :
+  frag1 ex1_flat = true /\ rejection_free ex1_flat = false /\ length (keys_of ex1_flat) = 32 /\
+  length (accepted_keys ex1_flat) = 12 /\ length (all_valid (code_sem ex1_flat)) = 12 /\
+  check_accepted_count ex1_flat = true.
+Proof.
+  split; [apply ex1_frag|]. split; [apply ex1_frag|]. split; [apply ex1_keys|]. split; [apply ex1_keys|].
+  split; [apply ex1_keys | apply ex1_checks].
+Qed.
